@@ -30,6 +30,9 @@ func c17TypeOK(typ string, inName string, v zygo.Sexp) bool {
 	case "bool":
 		_, ok := v.(*zygo.SexpBool)
 		return ok
+	case "rune":
+		_, ok := v.(*zygo.SexpChar)
+		return ok
 	case "[]int64", "[]string":
 		a, ok := v.(*zygo.SexpArray)
 		if !ok {
@@ -111,7 +114,7 @@ func c17Inspect(env *zygo.Zlisp, name string, decl c17decl, inName string) (prob
 var c17Values = []string{"1", "-7", `"str"`, "2.5", "true", "nil", "[]", "[1 2]", `["a"]`, "[1.5]", "(IN q:1)", "(TT a:1)", "'c'", "(quote sym)", "(list 1 2)", "(hash q:1)", "12ULL", `[1 "a"]`, "(IN)", "(& (IN q:2))", "(& r)", "(& 5)", "(& (EE))", "int64", "[nil 1]", `[(hash k:"bad")]`, "[(IN q:1)]", "[(EE)]", "(IN z:1)", "oldin"}
 
 var c17Good = map[string][]string{
-	"int64": {"1", "-7", "0"}, "string": {`"str"`, `""`}, "float64": {"2.5", "-0.5"}, "bool": {"true", "false"},
+	"int64": {"1", "-7", "0"}, "string": {`"str"`, `""`}, "float64": {"2.5", "-0.5"}, "bool": {"true", "false"}, "rune": {"'x'", "'q'", `(sget "abc" 1)`},
 	"[]int64": {"[1 2]", "[]", "[5]"}, "[]string": {`["a"]`, `["a" "b"]`, "[]"}, "In": {"(IN q:1)", "(IN q:9)"}, "*In": {"(& (IN q:1))", "(& (IN q:8))"},
 }
 
@@ -129,7 +132,7 @@ func init() {
 	core.Register(&core.Prop{
 		ID:    "C17",
 		Level: "exploration",
-		Rule: "histories of 25 (quick) / 40 (thorough) steps on instances of freshly declared structs (fields int64, string, float64, bool, ([]int64), ([]string), another struct whose name extends the outer struct's name, a pointer to it; plus a struct declared without fields): each step picks one of 20 write routes (constructor, hset with symbol / quoted symbol / [k] / string key, (set r.f v), infix {r.f = v}, (= r.f v), :=, index assignment with symbol and string keys, derefSet and hset through (& r), unjson and unmsgpack of a payload carrying the type name, nested paths {r.in.q = v}, element writes {r.xs[0] = v}), a field (declared, undeclared) and one of 25 value kinds (pointers to the right and to other structs, the type int64 itself, [nil 1]); a third of the steps are writes of an exactly matching value, and the struct is redeclared with different fields in between. " +
+		Rule: "histories of 25 (quick) / 40 (thorough) steps on instances of freshly declared structs (fields int64, string, float64, bool, rune, ([]int64), ([]string), another struct whose name extends the outer struct's name, a pointer to it; plus a struct declared without fields): each step picks one of 20 write routes (constructor, hset with symbol / quoted symbol / [k] / string key, (set r.f v), infix {r.f = v}, (= r.f v), :=, index assignment with symbol and string keys, derefSet and hset through (& r), unjson and unmsgpack of a payload carrying the type name, nested paths {r.in.q = v}, element writes {r.xs[0] = v}), a field (declared, undeclared) and one of 25 value kinds (pointers to the right and to other structs, the type int64 itself, [nil 1]); a third of the steps are writes of an exactly matching value, and the struct is redeclared with different fields in between. " +
 			"After EVERY step the monitor inspects each live instance through the exported hash fields: keys must be symbols and declared in the definition in force when the instance was created, values must have the declared type (nil and [] accepted); a step that returned an error must leave the printed instance unchanged; a matching write must succeed and be readable. non-trivial = distinct history containing >=1 rejected write, >=1 accepted write and a redeclaration",
 		Assumptions: []string{
 			"nil is accepted for every field and [] for slice fields (the language's rule)",
@@ -152,9 +155,9 @@ func c17Run(c *core.Ctx, i int) *core.Result {
 		return strings.ReplaceAll(strings.ReplaceAll(strings.ReplaceAll(s, "TT", tt), "IN", in), "EE", ee)
 	}
 	s := NewSutRun(true)
-	declOld := c17decl{"a": "int64", "s": "string", "f": "float64", "b": "bool", "xs": "[]int64", "ss": "[]string", "in": "In", "pp": "*In"}
+	declOld := c17decl{"a": "int64", "s": "string", "f": "float64", "b": "bool", "ch": "rune", "xs": "[]int64", "ss": "[]string", "in": "In", "pp": "*In"}
 	declNew := c17decl{"a": "string", "f": "float64", "nw": "int64", "xs": "[]string", "in": "In", "pp": "*In"}
-	setup := sub(`(struct IN [(field q: int64)]) (struct EE []) (struct TT [(field a: int64) (field s: string) (field f: float64) (field b: bool) (field xs: ([]int64)) (field ss: ([]string)) (field in: IN) (field pp: (* IN))]) (def r (TT a:1 s:"x" xs:[4 5] in:(IN q:3))) (def keep r) (def e0 (EE)) (def oldin (IN q:5))`)
+	setup := sub(`(struct IN [(field q: int64)]) (struct EE []) (struct TT [(field a: int64) (field s: string) (field f: float64) (field b: bool) (field ch: rune) (field xs: ([]int64)) (field ss: ([]string)) (field in: IN) (field pp: (* IN))]) (def r (TT a:1 s:"x" xs:[4 5] in:(IN q:3))) (def keep r) (def e0 (EE)) (def oldin (IN q:5))`)
 	var hist []string
 	hist = append(hist, setup)
 	if o := s.Eval(setup+"\n", 0); o.Err != nil || o.Panic != "" {
@@ -174,7 +177,7 @@ func c17Run(c *core.Ctx, i int) *core.Result {
 	cur := declOld
 	redeclared := false
 	inRedeclared := false
-	fields := []string{"a", "s", "f", "b", "xs", "ss", "in", "zz", "nw", "pp"}
+	fields := []string{"a", "s", "f", "b", "ch", "xs", "ss", "in", "zz", "nw", "pp"}
 	steps := thorN(c, 25, 40)
 	rejected, accepted := 0, 0
 	check := func(src string, err bool, before map[string]string) bool {
